@@ -102,7 +102,7 @@ def search(S):
                 return x, umax, "nan in state at step %d" % step
         return x, umax, None
 
-    runs = max(2, S.budget // 60)
+    runs = max(3, S.budget // 60)
     for k in range(runs):
         mode = "mellinger" if k % 2 == 0 else "loglinear"
         psp = np.array([0.0, 0.0, 5.0])
@@ -112,20 +112,28 @@ def search(S):
         x0 = np.zeros(17)
         x0[0:3] = psp + rng.uniform(-1.5, 1.5, 3)
         x0[3:6] = rng.uniform(-1, 1, 3)
+        far = mode == "mellinger" and k % 4 == 2
+        if far:
+            # several metres away and moving outwards: the position loop starts saturated (30 % of weight)
+            off = np.array([rng.choice([-1, 1]) * rng.uniform(3.5, 5.0), rng.choice([-1, 1]) * rng.uniform(3.5, 5.0), rng.uniform(-2.0, 3.0)])
+            x0[0:3] = psp + off
         x0[6:10] = q0
+        if far:
+            x0[3:6] = qmat(q0).T @ (off / np.linalg.norm(off) * rng.uniform(0.5, 1.2))       # body-frame velocity, pointing away
         x0[10:13] = rng.uniform(-1, 1, 3)
         x0[13:17] = w_hover
         psi = float(rng.uniform(-np.pi, np.pi)) if (mode == "mellinger" and k % 4 == 0) else 0.0
-        inp = {"mode": mode, "x0": x0.tolist(), "p_sp": psp.tolist(), "heading": psi, "tf": 15}
-        x, umax, err = run(mode, x0, psp, psi, 15.0)
+        tf = 20.0 if far else 15.0
+        inp = {"mode": mode, "x0": x0.tolist(), "p_sp": psp.tolist(), "heading": psi, "tf": tf}
+        x, umax, err = run(mode, x0, psp, psi, tf)
         if err:
             S.check("cascade." + mode, "nan", inp, False, None, err, "closed loop produced a non-finite value")
             continue
         R = qmat(x[6:10])
-        S.check("cascade." + mode, "position_convergence", inp, bool(np.linalg.norm(x[0:3] - psp) < 0.05), "< 0.05 m after 15 s", float(np.linalg.norm(x[0:3] - psp)), "position error does not decay below a few centimetres")
+        S.check("cascade." + mode, "position_convergence", inp, bool(np.linalg.norm(x[0:3] - psp) < 0.05), "< 0.05 m at the end of the run", float(np.linalg.norm(x[0:3] - psp)), "position error does not decay below a few centimetres")
         S.check("cascade." + mode, "attitude_settles", inp, bool(np.arccos(np.clip(R[2, 2], -1, 1)) < 0.02 and np.linalg.norm(x[10:13]) < 0.05 and np.linalg.norm(x[3:6]) < 0.05), "tilt < 0.02 rad, rates and speed < 0.05",
                 [float(np.arccos(np.clip(R[2, 2], -1, 1))), float(np.linalg.norm(x[10:13])), float(np.linalg.norm(x[3:6]))], "attitude / rates do not settle")
         S.check("cascade." + mode, "motor_limits", inp, bool(umax <= w_max * (1 + 1e-9)), float(w_max), umax, "motor command exceeded sqrt(F_max/CT)")
 
 
-H.run(search, "both shipped cascades (position_control+attitude_control, se23 log-linear) with the rdd2_sim.py gains around quadrotor.derive_model() defaults, true state fed back, RK4 100 Hz; random initial offsets up to 1.5 m per axis, tilts up to 50 deg, velocities and rates up to 1, random commanded headings for the Mellinger cascade; 15 simulated seconds; plus allocator/plant interface on unsaturated demands; distinct = distinct (unit, input)")
+H.run(search, "both shipped cascades (position_control+attitude_control, se23 log-linear) with the rdd2_sim.py gains around quadrotor.derive_model() defaults, true state fed back, RK4 100 Hz; random initial offsets up to 1.5 m per axis, tilts up to 50 deg, velocities and rates up to 1, random commanded headings for the Mellinger cascade, 15 simulated seconds; every fourth run (Mellinger) starts 3.5-5 m away horizontally and moving outwards so that the position loop starts saturated, 20 simulated seconds; plus allocator/plant interface on unsaturated demands; distinct = distinct (unit, input)")
